@@ -350,7 +350,11 @@ func (d *driver) barrier() bool {
 			// pending Join/Leave calls are, and are not looked at here) while the
 			// serve loop waits for it to release a response?
 			inHandler := strings.HasPrefix(p.Func, "muc.(*Client).Handle")
-			if _, old := d.base[p.ID]; !old && (inHandler || p.State == "chan send") {
+			// … or a request goroutine parked in its own hand-over (not in the
+			// session's wait for an answer): it has an answer in its hands, keeps
+			// the response open, and nobody is going to take it
+			handingOver := strings.Contains(p.Func, "Presence.func")
+			if _, old := d.base[p.ID]; !old && (inHandler || p.State == "chan send" || handingOver) {
 				d.c.Violate(stall.Key(p), "the serve loop no longer answers a ping; a goroutine of the MUC package is parked for good (in the handler, or holding a response the serve loop waits for):\n%s", p.Stack)
 				d.aborted = true
 				return false
